@@ -61,7 +61,7 @@ def _structure(draw):
         ns = 60000 * draw(st.sampled_from([1, 1, 2])) + draw(st.sampled_from([0, 1, 11, 12, 577, 30000, 59999]))
         window = 12 * draw(st.sampled_from([2500, 5000, 1700]))
     spec["ns"] = ns
-    return {"mode": "structure", "spec": spec, "window": window, "content_seed": draw(st.integers(0, 2 ** 31)),
+    return {"debug_log": draw(st.sampled_from([False, False, False, True])), "mode": "structure", "spec": spec, "window": window, "content_seed": draw(st.integers(0, 2 ** 31)),
             "content_mode": draw(st.sampled_from(["full", "full", "smooth"])), "compress": draw(st.booleans()),
             "cbin_in": draw(st.booleans()), "post_check": draw(st.booleans()), "recon_compress": draw(st.booleans()),
             # a second split by the SAME converter object: forced over the first output, or into new folders (extra=...)
@@ -84,6 +84,16 @@ def _meta_equal(a, b, ignore=("original_meta",)):
 
 
 def run_case(case, ctx):
+    if case.get("debug_log"):
+        # process state: logging switched on at DEBUG level (logging.basicConfig(level=logging.DEBUG) in the calling script)
+        from vp.core import debug_logging
+        ctx.label("debug_logging_on")
+        with debug_logging():
+            return _run_case(case, ctx)
+    return _run_case(case, ctx)
+
+
+def _run_case(case, ctx):
     sg, npx = sut.spikeglx(), sut.neuropixel()
     if case["mode"] == "values":
         spec = _values_spec(*case["pair"])
